@@ -1,21 +1,69 @@
 package main
 
-// ACME finalize: Order.Finalize of /repo/acme on a ready order, with the ACME nosql database
-// opened on the same fault-injecting nosql.DB the authority uses.
+// ACME finalize through the real JWS-authenticated handler: the acme/api routes are mounted
+// on the fixture authority as ca.CA.Init mounts them, the ACME nosql database sits on the same
+// fault-injecting nosql.DB as the authority's tables, and the client side (account, order,
+// http-01 validation, JWS bodies) is the one of harness/cmd/c12/acmeenv.
 
 import (
 	"context"
+	"crypto/tls"
+	"encoding/json"
+	"encoding/pem"
+	"errors"
 	"fmt"
+	"io"
+	"net/http"
+	"net/url"
 	"os"
-	"time"
+	"strings"
+	"sync"
+
+	"github.com/go-chi/chi/v5"
 
 	"github.com/smallstep/certificates/acme"
+	acmeAPI "github.com/smallstep/certificates/acme/api"
 	acmenosql "github.com/smallstep/certificates/acme/db/nosql"
 	"github.com/smallstep/certificates/authority"
-	"github.com/smallstep/certificates/authority/provisioner"
+	"verif/harness/cmd/c12/acmeenv"
 	c "verif/harness/common"
-	"verif/harness/fixture"
 )
+
+// valClient answers the http-01 fetch with the registered key authorization.
+type valClient struct {
+	mu sync.Mutex
+	m  map[string]string
+}
+
+func (v *valClient) Get(u string) (*http.Response, error) {
+	pu, err := url.Parse(u)
+	if err != nil {
+		return nil, err
+	}
+	v.mu.Lock()
+	body, ok := v.m[pu.Path]
+	v.mu.Unlock()
+	if !ok {
+		return &http.Response{StatusCode: 404, Body: io.NopCloser(strings.NewReader(""))}, nil
+	}
+	return &http.Response{StatusCode: 200, Body: io.NopCloser(strings.NewReader(body))}, nil
+}
+func (v *valClient) LookupTxt(string) ([]string, error) { return nil, errors.New("no dns") }
+func (v *valClient) TLSDial(string, string, *tls.Config) (*tls.Conn, error) {
+	return nil, errors.New("no tls")
+}
+
+type mergedCtx struct {
+	context.Context
+	base context.Context
+}
+
+func (m mergedCtx) Value(k any) any {
+	if v := m.Context.Value(k); v != nil {
+		return v
+	}
+	return m.base.Value(k)
+}
 
 func runACME(k *Case) result {
 	e, err := newEnv(k)
@@ -33,41 +81,41 @@ func runACME(k *Case) result {
 	if err != nil {
 		return fail("db", err)
 	}
-	pi, err := e.ca.Auth.LoadProvisionerByName("acme")
-	if err != nil {
-		return fail("provisioner", err)
-	}
-	prov, ok := pi.(acme.Provisioner)
-	if !ok {
-		return fail("provisioner type", nil)
-	}
-	ctx := authority.NewContext(context.Background(), e.ca.Auth)
-	ctx = provisioner.NewContextWithMethod(ctx, provisioner.SignMethod)
+	vc := &valClient{m: map[string]string{}}
+	base := authority.NewContext(context.Background(), e.ca.Auth)
+	base = acme.NewContext(base, adb, vc, acme.NewLinker(acmeenv.Host, "acme"), nil)
+	mux := chi.NewRouter()
+	mux.Route("/acme", func(r chi.Router) { acmeAPI.Route(r) })
+	env := &acmeenv.Env{Auth: e.ca.Auth, NoSQL: e.fdb, RealDB: adb, DB: adb,
+		Router: http.HandlerFunc(func(w http.ResponseWriter, r *http.Request) {
+			mux.ServeHTTP(w, r.WithContext(mergedCtx{r.Context(), base}))
+		})}
+
 	const name = "acme.verif.test"
-	acc := &acme.Account{Status: acme.StatusValid, ProvisionerID: prov.GetID(), ProvisionerName: prov.GetName(), Key: e.ca.JWK}
-	pub := e.ca.JWK.Public()
-	acc.Key = &pub
-	if err := adb.CreateAccount(ctx, acc); err != nil {
+	acct, err := env.NewAccount("acme", acmeenv.NewKey("es256", 0))
+	if err != nil {
 		return fail("account", err)
 	}
-	az := &acme.Authorization{AccountID: acc.ID, Identifier: acme.Identifier{Type: acme.DNS, Value: name},
-		Status: acme.StatusValid, ExpiresAt: time.Now().Add(time.Hour), Token: "tok"}
-	if err := adb.CreateAuthorization(ctx, az); err != nil {
-		return fail("authz", err)
-	}
-	o := &acme.Order{AccountID: acc.ID, ProvisionerID: prov.GetID(), Status: acme.StatusReady, ExpiresAt: time.Now().Add(time.Hour),
-		Identifiers: []acme.Identifier{{Type: acme.DNS, Value: name}}, AuthorizationIDs: []string{az.ID}}
-	if err := adb.CreateOrder(ctx, o); err != nil {
+	is, err := env.NewOrder(acct, name)
+	if err != nil {
 		return fail("order", err)
 	}
-	sans := []string{name}
-	if k.Chk == 0 { // CSR names differ from the order's identifiers
-		sans = []string{"other.verif.test"}
+	vc.mu.Lock()
+	vc.m["/.well-known/acme-challenge/"+is.Token] = is.Token + "." + acct.Key.Thumb()
+	vc.mu.Unlock()
+	if rec := env.Post(acct, acmeenv.Path("acme", "challenge", is.AuthzID, is.ChID), []byte("{}")); rec.Code != 200 {
+		return fail("challenge", fmt.Errorf("%d %s", rec.Code, rec.Body.String()))
 	}
-	csr, _, err := fixture.CSR(name, sans)
-	if err != nil {
-		return fail("csr", err)
+	if rec := env.Post(acct, acmeenv.Path("acme", "order", is.OrderID), nil); rec.Code != 200 {
+		return fail("order poll", fmt.Errorf("%d %s", rec.Code, rec.Body.String()))
 	}
+	csrName := name
+	if k.Chk >= 0 { // CSR names differ from the order's identifiers
+		csrName = "other.verif.test"
+	}
+	path := acmeenv.Path("acme", "order", is.OrderID, "finalize")
+	body := env.KidBody(acct, "acme", path, acmeenv.CSRPayload(csrName)) // fetches its nonce before the recording starts
+
 	count := func() map[string]int {
 		m := e.snapshot()
 		m["acme_certs"] = e.fdb.count("acme_certs")
@@ -75,26 +123,36 @@ func runACME(k *Case) result {
 	}
 	before := count()
 	e.rec.start(k.Faults)
-	ferr := o.Finalize(ctx, adb, csr, e.ca.Auth, prov)
+	rec := env.Do("POST", path, body)
 	ev := e.rec.stop()
+	ids := e.rec.endpoints()
 	after := count()
-	// what a client polling the order now sees
-	valid, got := 0, "none"
-	if o2, err := adb.GetOrder(ctx, o.ID); err == nil && o2.Status == acme.StatusValid && o2.CertificateID != "" {
-		valid = 1
-		if crt, err := adb.GetCertificate(ctx, o2.CertificateID); err == nil && crt.Leaf != nil && ferr == nil {
-			got = "cert"
-		}
+
+	cl, got, valid := "err", "none", 0
+	var o struct {
+		Status      string `json:"status"`
+		Certificate string `json:"certificate"`
 	}
-	cl := "err"
-	if ferr == nil {
+	if rec.Code == 200 && json.Unmarshal(rec.Body.Bytes(), &o) == nil && o.Status == "valid" && o.Certificate != "" {
 		cl = "ok"
-	} else if os.Getenv("VERIF_DEBUG") != "" {
-		fmt.Fprintln(os.Stderr, "finalize:", ferr)
+		// the certificate the response points to, fetched as the client would
+		if r2 := env.Post(acct, acmeenv.Path("acme", "certificate", acmeenv.LastPathElem(o.Certificate)), nil); r2.Code == 200 {
+			if blk, _ := pem.Decode(r2.Body.Bytes()); blk != nil {
+				got = "cert"
+			}
+		}
+	} else if rec.Code == 200 {
+		cl = "ok" // a success response that does not hand out a certificate
+	}
+	if o2, err := adb.GetOrder(context.Background(), is.OrderID); err == nil && o2.Status == acme.StatusValid && o2.CertificateID != "" {
+		valid = 1
+	}
+	if os.Getenv("VERIF_DEBUG") != "" {
+		fmt.Fprintf(os.Stderr, "%s -> %d %s\n", k.render()[:70], rec.Code, acmeenv.Class(rec))
 	}
 	d := func(t string) int { return after[t] - before[t] }
-	fc := failClosed(cl, got, ev, d("x509_certs"), 1, 0, "na", false)
-	if cl == "ok" && d("acme_certs") == 0 {
+	fc := failClosed(cl, got, ev, ids, d("x509_certs"), 1, 0, "na", false)
+	if cl == "ok" && (d("acme_certs") == 0 || got != "cert") {
 		fc = "BROKEN"
 	}
 	out := fmt.Sprintf("%s got=%s tok=0 stored=%d data=%d acme=%d valid=%d fc=%s trace=%s", cl, got,
